@@ -350,7 +350,8 @@ func (w *World) scanCommandPools(n *Node, mems []*MemWaiterServerProtocol) []str
 			return
 		}
 		if prev, ok := seen[c]; ok {
-			bad = append(bad, fmt.Sprintf("command object %p is in %s and in %s", c, prev, where))
+			// (no pointer value in the text: it goes into the event log, whose hash must not depend on addresses)
+			bad = append(bad, fmt.Sprintf("a command object (last used for LockId %x on key %x) is in %s and in %s", c.LockId[:3], c.LockKey[:3], prev, where))
 			return
 		}
 		seen[c] = where
